@@ -5,6 +5,9 @@ package c01
 import (
 	sdkmath "cosmossdk.io/math"
 
+	assetskeeper "github.com/ExocoreNetwork/exocore/x/assets/keeper"
+	assetstypes "github.com/ExocoreNetwork/exocore/x/assets/types"
+
 	"github.com/ExocoreNetwork/exocore/verifenv"
 	"github.com/ExocoreNetwork/exocore/verifrt"
 )
@@ -15,9 +18,10 @@ func setup() (*verifenv.Env, *verifenv.Ledger) {
 	bits := verifrt.Param("amount_bits", 127)
 	e := verifenv.NewLedgerEnv(100, no)
 	total := verifrt.Int("staking_total")
-	verifrt.Assume(!total.IsNegative())
+	verifrt.Assume(!total.IsNegative() && total.LTE(sdkmath.NewInt(8).Mul(verifPow2(bits))))
 	e.RegisterAsset(verifenv.LSTAddrHex, 18, total)
 	l := verifenv.NewSymbolicLedger(e, ns, no, verifenv.LSTAssetID(), bits)
+	l.AssumeStakingTotalCovers(total)
 	return e, l
 }
 
@@ -27,7 +31,7 @@ func VerifC01Delegate() {
 	pre := l.Read()
 	// stakers and operators are interchangeable in the universe: the acting pair is (0,0) w.l.o.g.
 	s, o := 0, 0
-	x := verifrt.Int("x")
+	x := boundedAmount(l)
 	err := e.Deleg.DelegateTo(e.Ctx, verifenv.DelegParams(s, o, verifenv.LSTAddr(), x, 1))
 	post := l.Read()
 	if err != nil {
@@ -45,3 +49,90 @@ func VerifC01Delegate() {
 }
 
 var _ = sdkmath.ZeroInt
+
+// VerifC01Undelegate: one UndelegateFrom step. The removed tokens leave the pool and become a
+// pending record of exactly that amount; nothing is created.
+func VerifC01Undelegate() {
+	e, l := setup()
+	pre := l.Read()
+	s, o := 0, 0
+	x := boundedAmount(l)
+	nonce := verifrt.U64("nonce")
+	verifrt.Assume(nonce < 16)
+	err := e.Deleg.UndelegateFrom(e.Ctx, verifenv.DelegParams(s, o, verifenv.LSTAddr(), x, nonce))
+	post := l.Read()
+	if err != nil {
+		l.AssertSame(pre, post, "failed undelegation leaves the ledger unchanged")
+		return
+	}
+	removed := pre.PoolAmount[o].Sub(post.PoolAmount[o])
+	verifrt.Assert(!removed.IsNegative() && removed.LTE(pre.PoolAmount[o]), "removed tokens are within the pool")
+	verifrt.Assert(post.Sigma().Equal(pre.Sigma()), "undelegation moves tokens from the pool to pending; the ledger sum is unchanged")
+	verifrt.Assert(post.Liquid().Equal(pre.Liquid().Sub(removed)), "tokens leaving the pool are not credited anywhere else")
+	verifrt.Assert(post.PoolPending[o].Equal(pre.PoolPending[o].Add(removed)), "operator pending figure grows by exactly the removed tokens")
+	verifrt.Assert(post.StPending[s].Equal(pre.StPending[s].Add(removed)), "staker pending figure grows by exactly the removed tokens")
+	verifrt.Assert(post.Wait[s][o].Equal(pre.Wait[s][o].Add(removed)), "delegation wait figure grows by exactly the removed tokens")
+	verifrt.Assert(post.Withdrawable[s].Equal(pre.Withdrawable[s]), "withdrawable untouched until completion")
+	verifrt.Assert(post.StakingTotal.Equal(pre.StakingTotal), "staking total untouched by undelegation")
+	recs, rerr := e.Deleg.GetStakerUndelegationRecords(e.Ctx, verifenv.StakerID(s), l.AssetID)
+	verifrt.Assert(rerr == nil && len(recs) == 1, "exactly one pending record is created")
+	if rerr == nil && len(recs) == 1 {
+		r := recs[0]
+		verifrt.Assert(r.Amount.Equal(removed) && r.ActualCompletedAmount.Equal(removed), "the record owes exactly the removed tokens")
+		verifrt.Assert(r.StakerID == verifenv.StakerID(s) && r.OperatorAddr == verifenv.OperatorBech[o] && r.AssetID == l.AssetID, "the record names the staker, operator and asset")
+		verifrt.Assert(r.CompleteBlockNumber >= uint64(e.Ctx.BlockHeight()), "completion height is not in the past")
+	}
+	l.AssertInv(post, l.Assoc, "after undelegate")
+}
+
+// VerifC01DepositWithdraw: PerformDepositOrWithdraw for LST deposit / withdraw.
+func VerifC01DepositWithdraw() {
+	e, l := setup()
+	pre := l.Read()
+	s := 0
+	x := boundedAmount(l)
+	isWithdraw := verifrt.Bool("withdraw")
+	action := assetstypes.DepositLST
+	if isWithdraw {
+		action = assetstypes.WithdrawLST
+	}
+	err := e.Assets.PerformDepositOrWithdraw(e.Ctx, &assetskeeper.DepositWithdrawParams{
+		ClientChainLzID: verifenv.LzID, Action: action, AssetsAddress: verifenv.LSTAddr(), StakerAddress: verifenv.StakerAddr(s), OpAmount: x,
+	})
+	post := l.Read()
+	if err != nil {
+		l.AssertSame(pre, post, "failed deposit/withdraw leaves the ledger unchanged")
+		return
+	}
+	verifrt.Assert(!x.IsNegative(), "negative amounts are rejected")
+	if isWithdraw {
+		verifrt.Assert(x.LTE(pre.Withdrawable[s]), "withdraw requires withdrawable >= amount")
+		verifrt.Assert(post.Withdrawable[s].Equal(pre.Withdrawable[s].Sub(x)), "withdrawable decreases by exactly x")
+		verifrt.Assert(post.StakingTotal.Equal(pre.StakingTotal.Sub(x)), "staking total decreases by exactly x")
+		verifrt.Assert(post.Sigma().Equal(pre.Sigma().Sub(x)), "ledger sum decreases by exactly x")
+	} else {
+		verifrt.Assert(post.Withdrawable[s].Equal(pre.Withdrawable[s].Add(x)), "withdrawable increases by exactly x")
+		verifrt.Assert(post.StakingTotal.Equal(pre.StakingTotal.Add(x)), "staking total increases by exactly x")
+		verifrt.Assert(post.Sigma().Equal(pre.Sigma().Add(x)), "ledger sum increases by exactly x")
+	}
+	for o := 0; o < l.NO; o++ {
+		verifrt.Assert(post.PoolAmount[o].Equal(pre.PoolAmount[o]) && post.PoolShare[o].Equal(pre.PoolShare[o]), "pools untouched by deposit/withdraw")
+	}
+	l.AssertInv(post, l.Assoc, "after deposit/withdraw")
+}
+
+// the operation amount: any integer up to the ledger bound (larger values hit sdk.Int's 256-bit
+// overflow panic, which DeliverTx recovers; outside this claim), including zero and negatives
+func boundedAmount(l *verifenv.Ledger) sdkmath.Int {
+	x := verifrt.Int("x")
+	verifrt.Assume(x.LTE(l.Max) && x.GTE(l.Max.Neg()))
+	return x
+}
+
+func verifPow2(n int) sdkmath.Int {
+	v := sdkmath.NewInt(1)
+	for i := 0; i < n; i++ {
+		v = v.MulRaw(2)
+	}
+	return v
+}
